@@ -154,7 +154,7 @@ EditsOf(kind) ==
     [] kind = "SetSigmaApr" -> {[k |-> "SetSigmaApr", num |-> f[1], den |-> f[2], act |-> a] : f \in {<<1, 2>>, <<5, 2>>, <<10, 1>>}, a \in {"apriori", "aposteriori"}}
     [] kind = "SetConfPr" -> {[k |-> "SetConfPr", p |-> p] : p \in {500, 900, 990, 999}}          \* per mille
     [] kind = "SetCovBand" -> {[k |-> "SetCovBand", band |-> b] : b \in {-1, 0, 1, 3, 100}}
-    [] kind = "OmitApprox" -> {[k |-> "OmitApprox", s |-> s] : s \in 1..3}
+    [] kind = "OmitApprox" -> {[k |-> "OmitApprox", s |-> s] : s \in 1..6}     \* 1..3 whole points; 4, 5 heights only; 6 x, y only (3-D templates)
     [] kind = "PerturbApprox" -> {[k |-> "PerturbApprox", mm |-> d] : d \in {30, 100, 600}}   \* 30, 100: well inside tol-abs = 1000 mm;
                                                                                             \* 600: tol-abs is raised, several linearization iterations are needed
     [] kind = "ExportReimport" -> {[k |-> "ExportReimport", rounds |-> r] : r \in 1..3}
@@ -164,9 +164,9 @@ EditsOf(kind) ==
     [] kind = "AttachHeights" -> {[k |-> "AttachHeights", s |-> s] : s \in 1..4}     \* 1: instrument heights, 2: both, 3: small target heights only, 4: small instrument heights only
     [] kind = "MakeFree" -> {[k |-> "MakeFree", s |-> s] : s \in 1..6}
     [] kind = "Isolate" -> {[k |-> "Isolate", s |-> s] : s \in 1..5}      \* 1, 2: sight in the first quadrant (2: with a height difference); 3, 4: second / fourth quadrant; 5: the single element is an angle whose foresight is the new point
-    [] kind = "InputFeatures" -> {[k |-> "InputFeatures", s |-> s] : s \in 1..7}
+    [] kind = "InputFeatures" -> {[k |-> "InputFeatures", s |-> s] : s \in 1..9}
          \* optional forms of the input language: 1 a <coordinates> cluster with one point observed in x,y only followed by another observed in z only,
-         \* 2 <dh> with dist and stdev, 3 <dh> with dist only, 4 directions with from_dh / to_dh, 5 extern attributes, 6 angles with from_dh / bs_dh / fs_dh, 7 latitude, ellipsoid, algorithm and cov-band in <parameters>
+         \* 2 <dh> with dist and stdev, 3 <dh> with dist only, 4 directions with from_dh / to_dh, 5 extern attributes, 6 angles with from_dh / bs_dh / fs_dh, 7 latitude, ellipsoid, algorithm and cov-band in <parameters>, 8 <obs> clusters with a banded covariance matrix, 9 the same written in degrees
     [] kind = "Blunder" -> {[k |-> "Blunder", obs |-> i, pct |-> pc, tol |-> tl, sig |-> sg] : i \in 1..8 \cup {LastObs}, pc \in {99, 101, 300}, tl \in {1, 10, 1000}, sg \in {10, 3, 40}}
     [] kind = "ExcludeVsDelete" -> {[k |-> "ExcludeVsDelete", s |-> s] : s \in 1..3}
     [] OTHER -> {}
@@ -222,11 +222,12 @@ Applicable(e) ==
   /\ (e.k = "InputFeatures" => /\ (e.s = 1 => net.t \in {"polar3d", "vec3d", "vecmix3d"})
                                 /\ (e.s \in {2, 3} => net.t \in {"lev1d", "freelev1d", "polar3d", "vec3d", "vecmix3d"})
                                 /\ (e.s = 4 => net.t \in {"tri2d", "polar3d", "fstat3d", "fstat2d"})
-                                /\ (e.s = 6 => net.t \in {"tri2d", "trav2d"}))
+                                /\ (e.s = 6 => net.t \in {"tri2d", "trav2d"})
+                                /\ (e.s \in {8, 9} => net.t \in {"tri2d", "trav2d", "dist2d", "polar3d", "fstat2d", "fstat3d"}))
   /\ (e.k = "Isolate" => net.t \in {"tri2d", "dist2d", "polar3d"} /\ (e.s = 5 => net.t \in {"tri2d", "dist2d"}))
   /\ (e.k = "ChangeDatum" => net.t \in FreeTemplates)
   /\ (e.k = "AddConsistentObs" => net.noise = 0)
-  /\ (e.k = "OmitApprox" => net.noise = 0 /\ net.t \notin FreeTemplates)
+  /\ (e.k = "OmitApprox" => net.noise = 0 /\ net.t \notin FreeTemplates /\ (e.s >= 4 => Template(net.t).dim = 3))
   /\ (e.k = "PerturbApprox" => net.t \notin FreeTemplates)    \* the datum of a free network is defined by its approximate coordinates
   /\ (e.k = "AttachHeights" => net.t \in {"polar3d", "fstat3d"} /\ net.noise = 0)
   /\ (e.k = "RotateCircle" => net.t \notin {"lev1d", "vec3d", "vecmix3d", "freevec3d", "freelev1d"})
